@@ -1,0 +1,14 @@
+//go:build !verif
+
+// Package vhook provides trace/fault-injection points for runtime
+// verification. Without the "verif" build tag every point is a no-op.
+package vhook
+
+// Enabled reports whether the hooks are compiled in.
+const Enabled = false
+
+// Point marks a named point of execution. It does nothing in this build.
+func Point(name string, kv ...interface{}) {}
+
+// ID returns an identifier for the object p points to ("" in this build).
+func ID(p interface{}) string { return "" }
